@@ -79,9 +79,11 @@ class Scenario:
                 yield r
 
 
-def solo_events(events, caller):
-    """Projection used by the solo pass: the shared setup (c < 0) plus one caller, no faults."""
-    return [e for e in events if 'env' not in e and (e.get('c', 0) < 0 or e.get('c') == caller)]
+def solo_events(events, caller, keep_env=()):
+    """Projection used by the solo pass: the shared setup (c < 0) plus one caller, no faults
+    (except environment kinds listed in keep_env, e.g. the read-only medium of a frozen run)."""
+    return [e for e in events if (e.get('env') in keep_env) or
+            ('env' not in e and (e.get('c', 0) < 0 or e.get('c') == caller))]
 
 
 def callers_of(events):
